@@ -45,6 +45,8 @@ def norm_paths(repo: Repo, paths: Iterable[Path]) -> Set[Path]:
         steps: List[str] = []
         dead = False
         for st in p:
+            if steps and st in ("arg0:tuple", "arg0:list") and _digits(steps[-1], "in:") is not None:
+                continue        # tuple(<display>) / list(<display>) keeps the positions
             if steps:
                 i = _digits(steps[-1], "in:")
                 j = _digits(st, "unpack:") or _digits(st, "item:")
@@ -756,6 +758,8 @@ class Unroller:
                 return None
             src = self.seq(gen.iter, at, depth + 1)
             if src is None:
+                src = self.seq_by_index(gen.iter, at)
+            if src is None:
                 return None
             out = []
             for x in src:
@@ -810,6 +814,83 @@ class Unroller:
                         return None
                 return out
         return None
+
+    # -- sequences whose LENGTH is known although their elements are not (a pair that is rebuilt in every turn of a loop)
+    def length(self, e: ast.AST, at: int, assume: Optional[Dict[str, Optional[int]]] = None, depth: int = 0) -> Optional[int]:
+        assume = assume or {}
+        if depth > 8:
+            return None
+        if isinstance(e, (ast.Tuple, ast.List)) and isinstance(getattr(e, "ctx", ast.Load()), ast.Load):
+            return None if any(isinstance(x, ast.Starred) for x in e.elts) else len(e.elts)
+        if isinstance(e, ast.Call) and isinstance(e.func, ast.Name) and e.func.id in ("tuple", "list", "reversed", "sorted", "iter") and len(e.args) == 1 \
+                and not e.keywords and not self.rd.defs_reaching(at, e.func.id):
+            return self.length(e.args[0], at, assume, depth + 1)
+        if isinstance(e, (ast.ListComp, ast.GeneratorExp)) and len(e.generators) == 1 and not e.generators[0].ifs and not e.generators[0].is_async:
+            return self.length(e.generators[0].iter, at, assume, depth + 1)
+        if isinstance(e, ast.Name) and isinstance(e.ctx, ast.Load):
+            if e.id in assume:
+                return assume[e.id]
+            defs = self.rd.defs_reaching(at, e.id)
+            if not defs or self.g.entry in defs or self._mutable_name(e.id):
+                return None
+            found: Set[int] = set()
+            cyclic = []
+            for d in defs:
+                k = self._def_length(e.id, d, {**assume, e.id: None}, depth)
+                if k is None:
+                    cyclic.append(d)
+                else:
+                    found.add(k)
+            if len(found) != 1:
+                return None
+            k = next(iter(found))
+            if any(self._def_length(e.id, d, {**assume, e.id: k}, depth) != k for d in cyclic):
+                return None
+            return k
+        return None
+
+    def _def_length(self, name: str, d: int, assume, depth: int) -> Optional[int]:
+        st = self.g.stmt[d]
+        if isinstance(st, ast.AnnAssign) and isinstance(st.target, ast.Name) and st.value is not None:
+            return self.length(st.value, d, assume, depth + 1)
+        if not (isinstance(st, ast.Assign) and len(st.targets) == 1):
+            return None
+        t = st.targets[0]
+        if isinstance(t, ast.Name):
+            return self.length(st.value, d, assume, depth + 1)
+        if isinstance(t, (ast.Tuple, ast.List)):
+            stars = [x for x in t.elts if isinstance(x, ast.Starred)]
+            if len(stars) == 1 and isinstance(stars[0].value, ast.Name) and stars[0].value.id == name:
+                whole = self.length(st.value, d, assume, depth + 1)
+                if whole is None:
+                    got = self.seq(st.value, d, depth + 1)
+                    whole = None if got is None else len(got)
+                return None if whole is None or whole < len(t.elts) - 1 else whole - (len(t.elts) - 1)
+        return None
+
+    def seq_by_index(self, e: ast.AST, at: int, depth: int = 0) -> Optional[List[ast.AST]]:
+        """`S[0], .., S[k-1]` for a local name S (directly, under tuple() / list(), or through a name bound once to that) whose length k is
+        known at this point"""
+        if depth > 3:
+            return None
+        if isinstance(e, ast.Call) and isinstance(e.func, ast.Name) and e.func.id in ("tuple", "list", "iter") and len(e.args) == 1 and not e.keywords \
+                and not self.rd.defs_reaching(at, e.func.id):
+            return self.seq_by_index(e.args[0], at, depth + 1)
+        if not (isinstance(e, ast.Name) and isinstance(e.ctx, ast.Load)):
+            return None
+        defs = self.rd.defs_reaching(at, e.id)
+        if len(defs) == 1 and self.g.entry not in defs:
+            d = next(iter(defs))
+            st = self.g.stmt[d]
+            v = st.value if isinstance(st, (ast.Assign, ast.AnnAssign)) and (isinstance(st, ast.AnnAssign) or (len(st.targets) == 1 and isinstance(st.targets[0], ast.Name))) else None
+            if isinstance(v, ast.Call) and self._same_defs(v, d, at):
+                inner = self.seq_by_index(v, d, depth + 1)
+                if inner is not None:
+                    return inner
+        k = self.length(e, at)
+        if k is None or not (0 < k <= MAX_UNROLL):
+            return None
+        return [ast.Subscript(value=ast.Name(id=e.id, ctx=ast.Load()), slice=ast.Constant(value=i), ctx=ast.Load()) for i in range(k)]
 
     def _module_const(self, name: str) -> Optional[ast.AST]:
         """the value expression of a module-level constant of the function's own module (bound there, not a local of the function)"""
@@ -1061,6 +1142,20 @@ class Unroller:
                 got = self.seq(st.value, n)
                 if got is not None and len(got) == len(st.targets[0].elts) and not self._is_display_name(st.value, n):
                     repl[id(st.value)] = ast.copy_location(ast.Tuple(elts=[copy.deepcopy(x) for x in got], ctx=ast.Load()), st.value)
+            # `*xs, y = <sequence of known elements>` -> `xs, y = [e0, .., e_{n-2}], e_{n-1}`
+            if isinstance(st, ast.Assign) and len(st.targets) == 1 and isinstance(st.targets[0], (ast.Tuple, ast.List)) \
+                    and sum(isinstance(x, ast.Starred) for x in st.targets[0].elts) == 1 and all(isinstance(x, ast.Name) or (isinstance(x, ast.Starred) and isinstance(x.value, ast.Name))
+                                                                                             for x in st.targets[0].elts):
+                got = self.seq(st.value, n)
+                elts = st.targets[0].elts
+                if got is not None and len(got) >= len(elts) - 1:
+                    i = next(k for k, x in enumerate(elts) if isinstance(x, ast.Starred))
+                    tail = len(elts) - 1 - i
+                    vals = [copy.deepcopy(x) for x in got]
+                    mid = ast.List(elts=vals[i:len(vals) - tail], ctx=ast.Load())
+                    new_val = ast.Tuple(elts=vals[:i] + [mid] + vals[len(vals) - tail:], ctx=ast.Load())
+                    new_tgt = ast.Tuple(elts=[ast.Name(id=(x.value.id if isinstance(x, ast.Starred) else x.id), ctx=ast.Store()) for x in elts], ctx=ast.Store())
+                    repl[id(st)] = ast.copy_location(ast.Assign(targets=[new_tgt], value=new_val, lineno=st.lineno), st)
         # `for T in <sequence of known length>: BODY` -> `T = e1; BODY; T = e2; BODY; ..` (a dispatch loop over a table becomes the
         # chain of tests it stands for)
         loops: Dict[int, List[ast.AST]] = {}
@@ -1125,3 +1220,79 @@ def unroll(repo: Repo, f: FuncInfo) -> FuncInfo:
             cur = nxt
         _unrolled[k] = cur
     return _unrolled[k]
+
+
+
+# --------------------------------------------------------------------------------------------------------------- def-use closure
+def flows_to_return(f: FuncInfo, expr: ast.AST, limit: int = 400) -> bool:
+    """L.flows_to_return that also follows a value into the element variable of a loop / comprehension that iterates over it
+    (`for c in reversed(parts): text = f"(.. {c} {text})"`), and through starred unpacking.  A use inside a branch condition does not count."""
+    from .. import cfg as C
+    from .. import lib as L
+    g = C.cfg_of(f.node)
+    rd = L.rd_of(f)
+    pm = L.parents_of(f)
+
+    def stmt_of(e):
+        cur = e
+        while cur in pm and not isinstance(cur, ast.stmt):
+            cur = pm[cur]
+        return cur if isinstance(cur, ast.stmt) else None
+
+    def in_test(e, st) -> bool:
+        cur = e
+        while cur in pm and cur is not st:
+            par = pm[cur]
+            if isinstance(par, (ast.If, ast.While, ast.IfExp, ast.Assert)) and par.test is cur:
+                return True
+            if isinstance(par, ast.comprehension) and any(cur is c for c in par.ifs):
+                return True
+            cur = par
+        return False
+
+    def uses_of(name: str, dn: Optional[int], any_def: bool):
+        for u in ast.walk(f.node):
+            if isinstance(u, ast.Name) and u.id == name and isinstance(u.ctx, ast.Load):
+                un = g.node_containing(u)
+                if un is None:
+                    continue
+                if any_def or dn in rd.defs_reaching(un, name) or un == dn:
+                    yield u
+
+    work, seen = [expr], set()
+    while work and limit > 0:
+        limit -= 1
+        e = work.pop()
+        st = stmt_of(e)
+        if st is None or id(e) in seen or in_test(e, st):
+            continue
+        seen.add(id(e))
+        if isinstance(st, ast.Return) or any(isinstance(x, (ast.Yield, ast.YieldFrom)) and any(y is e for y in ast.walk(x)) for x in ast.walk(st)):
+            return True
+        # into the element variable of a comprehension that iterates over the value: the element expression carries it on
+        cur = e
+        while cur in pm and cur is not st:
+            par = pm[cur]
+            if isinstance(par, ast.comprehension) and par.iter is cur or (isinstance(par, ast.comprehension) and any(cur is y for y in ast.walk(par.iter))):
+                comp = pm.get(par)
+                if comp is not None:
+                    tn = C.target_names(par.target)
+                    for u in ast.walk(comp):
+                        if isinstance(u, ast.Name) and u.id in tn and isinstance(u.ctx, ast.Load):
+                            work.append(u)
+                break
+            cur = par
+        names, any_def = [], False
+        if isinstance(st, ast.Assign):
+            names = [n.id for t in st.targets for n in ast.walk(t) if isinstance(n, ast.Name)]
+        elif isinstance(st, (ast.AnnAssign, ast.AugAssign)) and isinstance(st.target, ast.Name):
+            names = [st.target.id]
+        elif isinstance(st, ast.For) and any(e is y for y in ast.walk(st.iter)):
+            names = sorted(C.target_names(st.target))
+        elif isinstance(st, ast.Expr) and isinstance(st.value, ast.Call) and isinstance(st.value.func, ast.Attribute) and \
+                st.value.func.attr in ("append", "add", "extend", "update", "insert", "appendleft") and isinstance(st.value.func.value, ast.Name):
+            names, any_def = [st.value.func.value.id], True
+        dn = g.node_of(st)
+        for name in names:
+            work.extend(uses_of(name, dn, any_def))
+    return False
